@@ -20,23 +20,22 @@ Theorem C14_encoder_own_program : forall l live types schedule,
 Proof. exact enc_own_program. Qed.
 Print Assumptions C14_encoder_own_program.
 
-(* Decoder: the same for types that do not lie below the lowest sampled descriptor ... *)
+(* Decoder: the same (both bounds of the window are tested since the fix recorded in KNOWN_FINDINGS.txt) *)
 Theorem C14_decoder_own_program : forall l live types schedule,
   Forall sample_ok l -> layout_ok (effective l) live -> Forall live types ->
-  (forall a, live a -> ta_base (effective l) <= a) ->
   forall look, (look = dec_norace (effective l) \/ look = dec_race (effective l)) ->
   forall t pcv, In (t, pcv) (snd (run look (start types) schedule)) ->
     (forall q, pcv = Done q -> q = t) /\ pcv <> Crashed.
 Proof. exact dec_own_program. Qed.
 Print Assumptions C14_decoder_own_program.
 
-(* ... because the decoder tests the upper bound only: a descriptor below base
-   makes the subtraction wrap and the index leave the cache (the encoder takes
-   the map path for the same address).  No such descriptor exists in binaries
-   produced by this toolchain; the harness checks that on every run. *)
-Theorem C14_decoder_lower_bound_missing :
-  exists l p, Forall sample_ok l /\ w64 p /\ dec_norace (effective l) p = Panic /\ enc_norace (effective l) p = Slow.
-Proof. exact dec_below_base_panics. Qed.
+(* wherever a descriptor lies outside the window of the binary's own types (run-time-created
+   types on the heap, above it or, in position-independent builds, below it) all four lookups
+   take the map keyed by the descriptor's address *)
+Theorem C14_outside_window_takes_map_path : forall ta p, (p < ta_base ta \/ ta_max ta < p) ->
+  enc_norace ta p = Slow /\ enc_race ta p = Slow /\ dec_norace ta p = Slow /\ dec_race ta p = Slow.
+Proof. exact outside_window_takes_map_path. Qed.
+Print Assumptions C14_outside_window_takes_map_path.
 
 (* The layout hypothesis cannot be dropped: the alignment inference compares
    each address with the minimum seen so far, so a sample visited in descending
